@@ -1250,7 +1250,10 @@ pub(crate) fn run_sys_op(op: &SysOp, env: &mut Uiua) -> UiuaResult {
             let timeout = if timeout.is_infinite() {
                 None
             } else {
-                Some(Duration::from_secs_f64(timeout))
+                Some(
+                    Duration::try_from_secs_f64(timeout)
+                        .map_err(|e| env.error(format!("Invalid timeout: {e}")))?,
+                )
             };
             let handle = env.pop(2)?.as_handle(env, None)?;
             (env.rt.backend)
@@ -1262,7 +1265,10 @@ pub(crate) fn run_sys_op(op: &SysOp, env: &mut Uiua) -> UiuaResult {
             let timeout = if timeout.is_infinite() {
                 None
             } else {
-                Some(Duration::from_secs_f64(timeout))
+                Some(
+                    Duration::try_from_secs_f64(timeout)
+                        .map_err(|e| env.error(format!("Invalid timeout: {e}")))?,
+                )
             };
             let handle = env.pop(2)?.as_handle(env, None)?;
             (env.rt.backend)
